@@ -330,6 +330,7 @@ pub fn gen_case(rng: &mut Rng, g: &GenOpts) -> Case {
     let mut bytes: Vec<VecDeque<u8>> = vec![];
     // per-connection fault plan: 0 none, 1 truncate+close, 2 close mid-burst, 3 read error, 4 write failure, 5 big unterminated tail
     let mut plans = vec![];
+    let mut boundaries: Vec<usize> = vec![];
     for i in 0..nconn {
         let faulty = g.faults && rng.chance(1, 3);
         // 5: after its frames the client sends 4.5..12 KB without a terminator (an oversized / garbage message
@@ -338,10 +339,23 @@ pub fn gen_case(rng: &mut Rng, g: &GenOpts) -> Case {
         let maxc = if g.flooders && rng.chance(1, 2) { g.max_calls * 3 } else { g.max_calls };
         let mut descs = gen_descs(rng, maxc, true, g.streams);
         let mut b = vec![];
+        // boundary plan: one call is padded with blanks (legal JSON white space) so that its terminator is the last
+        // byte of a 256-byte step of the read buffer, its bytes are delivered up to exactly there and the server is
+        // polled before the rest arrives: "the batch ends exactly where the buffer ends", then more calls
+        let pad_at = if !descs.is_empty() && rng.chance(1, 3) { Some(rng.below(descs.len())) } else { None };
+        let mut boundary = 0usize;
         for (k, d) in descs.iter().enumerate() {
             b.extend_from_slice(&d.wire(i, k));
+            if pad_at == Some(k) && !matches!(d, Desc::Garbage(_)) {
+                let rem = (b.len() + 1) % 256;
+                if rem != 0 {
+                    b.extend(std::iter::repeat(b' ').take(256 - rem));
+                }
+                boundary = b.len() + 1;
+            }
             b.push(0);
         }
+        boundaries.push(boundary);
         let mut wfail = None;
         match plan {
             1 => {
@@ -370,6 +384,7 @@ pub fn gen_case(rng: &mut Rng, g: &GenOpts) -> Case {
     let mut evs = vec![];
     let mut connected = vec![false; nconn];
     let mut closed = vec![false; nconn];
+    let mut delivered = vec![0usize; nconn];
     let steps = rng.range(5, 60);
     for _ in 0..steps {
         let c = rng.below(nconn);
@@ -380,9 +395,18 @@ pub fn gen_case(rng: &mut Rng, g: &GenOpts) -> Case {
             }
         } else if !bytes[c].is_empty() {
             let lim = if plans[c] == 5 && bytes[c].len() > 3000 { 3000 } else if rng.chance(1, 3) { 400 } else { 40 };
-            let n = 1 + rng.below(bytes[c].len().min(lim));
+            let mut n = 1 + rng.below(bytes[c].len().min(lim));
+            // no chunk straddles the connection's boundary; the server runs when the boundary has been reached
+            let before = boundaries[c] > delivered[c];
+            if before {
+                n = n.min(boundaries[c] - delivered[c]);
+            }
             let chunk: Vec<u8> = (0..n).map(|_| bytes[c].pop_front().unwrap()).collect();
+            delivered[c] += n;
             evs.push(Ev::Arrive(c, chunk));
+            if before && delivered[c] == boundaries[c] && rng.chance(3, 4) {
+                evs.push(Ev::Poll);
+            }
             // faults that strike mid-burst
             if !closed[c] && plans[c] == 2 && rng.chance(1, 3) {
                 closed[c] = true;
